@@ -839,7 +839,7 @@ func c11Instances(add func(*Instance), thorough bool, inv int) {
 			}
 			add(&Instance{Func: "VerifC11Aggregate", Params: with(base, "g", g, "lst", l, "w", 1)})
 			// other chunk kinds (run chunks; anchored arrays for the xor / bitmap kernels)
-			if (l == 123 || l == 12) && g != 2 {
+			if l == 12 && g != 2 {
 				add(&Instance{Func: "VerifC11Aggregate", Params: with(base, "g", g, "lst", l, "w", 1, "ac1", 224, "bc0", 224, "akeys", 4, "bkeys", 4, "ckeys", 4,
 					"ac0", 21, "bc1", 22, "cc0", 21, "xb", 56, "xm", 15), Tier: inv})
 			}
@@ -851,6 +851,8 @@ func c11Instances(add func(*Instance), thorough bool, inv int) {
 		for _, w := range []int{1, 2} {
 			add(&Instance{Func: "VerifC11Aggregate", Params: with(base, "g", g, "lst", 123, "w", w, "akeys", 13, "bkeys", 13, "ck", 2, "ckeys", 14,
 				"ac0", 21, "ac1", 21, "bc0", 21, "bc1", 22, "cc0", 21, "cc1", 21, "xb", 56, "xm", 15)})
+			add(&Instance{Func: "VerifC11Aggregate", Params: with(base, "g", g, "lst", 123, "w", w, "ak", 3, "akeys", 15, "bk", 3, "bkeys", 15, "ck", 2, "ckeys", 16,
+				"ac0", 21, "ac1", 21, "ac2", 21, "bc0", 21, "bc1", 22, "bc2", 21, "cc0", 21, "cc1", 21, "xb", 56, "xm", 15)})
 		}
 	}
 	keyPats := [][2]int{{7, 8}, {4, 5}, {6, 4}, {8, 7}}
